@@ -963,7 +963,9 @@ def nextTokenTail (l : Lexer) : LexRes Token × Lexer :=
 /-- `NextToken` after `PreNextToken` succeeded -/
 def dispatchToken (l1 : Lexer) : LexRes Token × Lexer :=
   let ch := l1.cur
-  if ch == runeEOF then parseEOF l1
+  if ch == runeEOF then
+    -- a NUL inside the text is an invalid character, not the end of input (repair 723b40e)
+    if l1.cursor < l1.src.size then (.err ⟨25, l1.cursor⟩, l1) else parseEOF l1
   else if ch == cCharZHU || ch == cSlashOp then
     -- save-point: a failed comment attempt only restores the cursor
     match parseComment l1 with
